@@ -45,7 +45,7 @@ def ext_nodes_scalar(a):
 
 
 def aero_states(rep, tier, timeout):
-    sizes = [(2, 2), (2, 3)] if tier == "quick" else [(2, 2), (2, 3), (3, 3), (2, 4)]
+    sizes = [(2, 2), (2, 3), (3, 3), (4, 2)] if tier == "quick" else [(2, 2), (2, 3), (3, 3), (4, 2), (2, 4), (3, 4), (5, 3), (2, 6)]
     for (nx, nyh) in sizes:
         for root_on_plane in (True, False):
             if not root_on_plane and (nx, nyh) != sizes[0] and tier == "quick":
@@ -186,7 +186,7 @@ def replay_aero(ob, env, sh, sf, m, nx, nyh, root_on_plane):
 def conventions(rep, tier, timeout):
     """Factor-of-two / symmetric conventions, component by component: half-model output == full-model output on the
     mirror-symmetric extension of the inputs."""
-    nyhs = [2, 3] if tier == "quick" else [2, 3, 4]
+    nyhs = [2, 3] if tier == "quick" else [2, 3, 4, 5]
     for nyh in nyhs:
         nx = 2
         nyf = 2 * nyh - 1
